@@ -105,12 +105,16 @@ class Kinds:
             if e.attr == "msg_number":
                 return {SEQ}
             return set()
-        if isinstance(e, ast.BinOp) and isinstance(e.right, ast.Constant) and e.right.value == 1:
+        if isinstance(e, ast.BinOp) and isinstance(e.op, (ast.Add, ast.Sub)) and isinstance(e.right, ast.Constant) and isinstance(e.right.value, int) and not isinstance(e.right.value, bool):
             l = self._kinds(e.left, depth + 1)
-            if isinstance(e.op, ast.Add) and l == {IDX}:
+            c = e.right.value
+            if c == 1 and isinstance(e.op, ast.Add) and l == {IDX}:
                 return {SEQ}
-            if isinstance(e.op, ast.Sub) and l == {SEQ}:
+            if c == 1 and isinstance(e.op, ast.Sub) and l == {SEQ}:
                 return {IDX}
+            if c != 0 and l in ({IDX}, {SEQ}):
+                # a position shifted the wrong way or by more than the 0-/1-based convention: names a neighbouring message
+                return {f"{next(iter(l))}{'+' if isinstance(e.op, ast.Add) else '-'}{c}"}
             return set()
         if isinstance(e, ast.IfExp):
             return self._kinds(e.body, depth + 1) | self._kinds(e.orelse, depth + 1)
@@ -191,6 +195,16 @@ class Kinds:
         cur |= ks
         return True
 
+    def _rebinding(self) -> set[int]:
+        if not hasattr(self, "_rb"):
+            self._rb = set()
+            for n in body_walk(self.fi.node):
+                if isinstance(n, ast.Assign) and len(n.targets) == 1 and isinstance(n.targets[0], ast.Name):
+                    for c in ast.walk(n.value):
+                        if isinstance(c, (ast.ListComp, ast.SetComp, ast.GeneratorExp, ast.DictComp)) and any(isinstance(g.iter, ast.Name) and g.iter.id == n.targets[0].id for g in c.generators):
+                            self._rb.add(id(c))
+        return self._rb
+
     def _pass(self) -> bool:
         ch = False
         for n in body_walk(self.fi.node):
@@ -226,6 +240,12 @@ class Kinds:
                         ch |= self._bind(self.scalar, x.id, self._elems(base))
                 elif isinstance(n.target, ast.Name):
                     ch |= self._bind(self.scalar, n.target.id, self._elems(it))
+            elif isinstance(n, (ast.ListComp, ast.SetComp, ast.GeneratorExp, ast.DictComp)):
+                if id(n) in self._rebinding():
+                    continue  # x = [f(e) for e in x]: the elements read are those of the *old* x (flow-insensitive union would mix them)
+                for gen in n.generators:
+                    if isinstance(gen.target, ast.Name):
+                        ch |= self._bind(self.scalar, gen.target.id, self._elems(gen.iter))
             elif isinstance(n, ast.Call) and call_name(n) in ("append", "add") and isinstance(call_recv(n), ast.Name) and n.args:
                 ch |= self._bind(self.elem, call_recv(n).id, self._kinds(n.args[0]))
             elif isinstance(n, ast.Call) and call_name(n) in ("extend", "update") and isinstance(call_recv(n), ast.Name) and n.args:
